@@ -39,6 +39,7 @@ import CtyModel.Lemmas.ConvertD08Roundtrip
 import CtyModel.Lemmas.ConvertD08CoversColl
 import CtyModel.Lemmas.d08bUnmark
 import CtyModel.Lemmas.d08bFrontier
+import CtyModel.Lemmas.d08bKept
 namespace CtyModel
 namespace C08
 open Convert Ty
@@ -510,6 +511,63 @@ theorem convert_marks_of_result (E : Env) (fuel : Nat) (v r : Value) (want : Ty)
     (h : convert E fuel v want = .ok r) :
     (∀ m ∈ r.marksDeep, m ∈ v.marksDeep) ∧ (∀ m ∈ v.marks, m ∈ r.marks) :=
   ⟨D04C.convert_noinv E fuel v want r h, fun m hm => D04C.convert_top_kept E fuel v want r h m hm⟩
+
+/-! ### … and where the marks below the top go
+
+Full statement: every mark of the input, at any depth, is a mark of the result.  FALSE of the code, by
+design: a conversion to an object type drops the attributes (map → object: the keys) the target
+does not name, and their marks go with them — the result no longer depends on those values.  Not a
+finding.  What is proved: conversions that rebuild their input element by element (`D08B.keeps`)
+lose nothing. -/
+def DeepMarksKept : Prop :=
+  ∀ (E : Env) (fuel : Nat) (v r : Value) (want : Ty), Value.wt v = true → v.MarksWF →
+    convert E fuel v want = .ok r → ∀ m ∈ v.marksDeep, m ∈ r.marksDeep
+
+theorem deep_marks_kept_counterexample :
+    convert Env.simple 4 ⟨.object ["a", "b"] [.bool, .bool] [false, false],
+        .smap ["a", "b"] [.marked ["gone"] (.b true), .b false]⟩ (.object ["b"] [.bool] [false]) =
+      .ok ⟨.object ["b"] [.bool] [false], .smap ["b"] [.b false]⟩ := rfl
+
+theorem deepMarksKept_false : ¬ DeepMarksKept := by
+  intro h
+  have := h Env.simple 4 _ _ _ (by decide) ⟨by decide, by decide⟩ deep_marks_kept_counterexample "gone" (by decide)
+  revert this
+  decide
+
+/-- **No mark is lost, at any depth**, by a conversion `GetConversion*` returned whose plan is of the
+keeping kind — `getConversion`'s wrapper, primitive conversions, list / set / map rebuilding (maps of
+non-collections), tuple → tuple, tuple → set, at any nesting — applied to a well-typed value whose
+sets hold no marks, when the result type names no object type: every mark of the input is on the
+converted element at the corresponding position, or on the set it went into, or above.  Every
+environment and fuel.  (Outside this class — tuple → list, object sources, maps of collections,
+dynamic sources: searched by the harness predicate `marks_kept`.) -/
+theorem deep_marks_kept_partial (E : Env) (fuel : Nat) (p : Plan) (v r : Value)
+    (hk : D08B.keeps p = true) (hwt : wtP v.ty v.v = true) (hc : v.v.setsClean = true)
+    (h : apply E fuel p v = .ok r) (hno : D08B.noObj r.ty = true) :
+    ∀ m ∈ v.marksDeep, m ∈ r.marksDeep :=
+  fun m hm => D08B.apply_kept E fuel p v r hk h hno m (D08B.deep_subset_seen v.ty v.v m hwt hc hm)
+
+/-- … and by `Convert`, when the conversion it looks up is of that kind. -/
+theorem deep_marks_kept_convert_partial (E : Env) (fuel : Nat) (v r : Value) (want : Ty)
+    (hk : ∀ p, getConv E v.ty want true = some p → D08B.keeps p = true)
+    (hwt : wtP v.ty v.v = true) (hc : v.v.setsClean = true)
+    (h : convert E fuel v want = .ok r) (hno : D08B.noObj r.ty = true) :
+    ∀ m ∈ v.marksDeep, m ∈ r.marksDeep := by
+  unfold convert convertWith at h
+  split at h
+  · simp at h; subst h; exact fun _ hm => hm
+  · split at h
+    · simp at h
+    · rename_i p hp
+      exact deep_marks_kept_partial E fuel p v r (hk p hp) hwt hc h hno
+
+/-- the class is not empty: list(list(bool)) → list(set(string)) and tuple(bool, number) → set(string)
+are conversions of the keeping kind, and the marks of the elements end up on the sets -/
+example : (getConv Env.simple (.list (.list .bool)) (.list (.set .string)) true).all D08B.keeps = true := by decide
+example : (getConv Env.simple (.tuple [.bool, .number]) (.set .string) true).all D08B.keeps = true := by decide
+example : convert Env.simple 12 ⟨.list (.list .bool), .seq [.seq [.marked ["e"] (.b true)], .marked ["l"] (.seq [])]⟩
+      (.list (.set .string)) =
+    .ok ⟨.list (.set .string), .seq [.marked ["e"] (.sset [0] [.s "true"]), .marked ["l"] (.sset [] [])]⟩ := rfl
 
 /-- the hypotheses at work: an object with a marked list holding a marked
 element, converted to an object type with a set attribute — the element's mark moves up to the set,
